@@ -38,6 +38,7 @@
 #include <xercesc/validators/common/Grammar.hpp>
 #include <xercesc/util/StringPool.hpp>
 #include <algorithm>
+#include <map>
 #include <cstring>
 #include <memory>
 
@@ -158,6 +159,52 @@ static std::string doEngine(const std::vector<std::string>& a) {
         result += " err OutOfMemory";       // a garbage length field: allocation fails before the read does
     }
     return result;
+}
+
+// object references through the real engine: objects of two small serializable classes (0 = QName, 1 = KVStringPair),
+// template containers by address (needToStoreObject / needToLoadObject / registerObject); the answer is the sharing
+// pattern of the loaded pointers (first-appearance index), "-" for null
+#include <xercesc/util/QName.hpp>
+#include <xercesc/util/KVStringPair.hpp>
+static std::string doObj(const std::vector<std::string>& a) {
+    size_t bs = (size_t)atol(a[1].c_str());
+    MemoryManager* mm = XMLPlatformUtils::fgMemoryManager;
+    XMLGrammarPoolImpl pool(mm);
+    BinMemOutputStream out(1024, mm);
+    std::map<int, XSerializable*> objs;
+    std::map<int, void*> conts;
+    std::vector<char> dummy(4096);
+    try {
+        XSerializeEngine eng(&out, &pool, bs);
+        for (size_t k = 2; k < a.size(); k++) {
+            const std::string& t = a[k];
+            if (t[0] == 'n') { if (t == "nt") eng.needToStoreObject(0); else eng << (XSerializable*)0; }
+            else if (t[0] == 't') { int ad = atoi(t.c_str() + 1); conts[ad] = &dummy[ad % 4096]; eng.needToStoreObject(conts[ad]); }
+            else { int ad = atoi(t.c_str() + 1); int c = atoi(t.c_str() + t.find(':') + 1);
+                   if (!objs.count(ad)) objs[ad] = c == 0 ? (XSerializable*)new (mm) QName(mm) : (XSerializable*)new (mm) KVStringPair(mm);
+                   eng << objs[ad]; }
+        }
+    } catch (const XMLException& e) { return "werr " + exName(e); }
+    std::vector<XMLByte> bytes(out.getRawBuffer(), out.getRawBuffer() + out.curPos());
+    std::string res = "ok";
+    try {
+        BinMemInputStream in(bytes.data(), bytes.size(), BinMemInputStream::BufOpt_Reference, mm);
+        XSerializeEngine eng(&in, &pool, bs);
+        std::vector<void*> seen;
+        std::vector<char> marks(a.size() + 1);
+        for (size_t k = 2; k < a.size(); k++) {
+            const std::string& t = a[k];
+            void* p = 0;
+            if (t == "nt" || t[0] == 't') { if (eng.needToLoadObject(&p)) { p = &marks[k]; eng.registerObject(p); } }
+            else { int c = atoi(t.c_str() + (t[0] == 'n' ? 1 : t.find(':') + 1));
+                   if (c == 0) { QName* q = 0; eng >> q; p = q; } else { KVStringPair* q = 0; eng >> q; p = q; } }
+            if (!p) { res += " -"; continue; }
+            size_t i = std::find(seen.begin(), seen.end(), p) - seen.begin();
+            if (i == seen.size()) seen.push_back(p);
+            res += " " + std::to_string(i);
+        }
+    } catch (const XMLException& e) { return "err " + exName(e); }
+    return res;
 }
 
 // ------------------------------------------------------------------------------------------------------------
@@ -513,6 +560,7 @@ int main() {
         std::string r = "bad-request";
         try {
             if (a.size() >= 3 && a[0] == "eng") r = doEngine(a);
+            else if (a.size() >= 3 && a[0] == "obj") r = doObj(a);
             else if (a.size() >= 4 && a[0] == "pool") r = doPool(a);
             else if (a.size() == 1 && a[0] == "consts") {
                 XMLGrammarPoolImpl pool(XMLPlatformUtils::fgMemoryManager);
